@@ -29,10 +29,15 @@ Hypotheses used below (definitions in `Proofs/C17.lean`, repeated here for the r
                succeeding gives (`buildable_good`)
              ∧ every virtual keyword-only argument carries a default (all that
                `with_spec_attrs_for` adds do: `nested_kw_bijection`)
-             ∧ `noCapture b`: no parameter is called `implementation` / `validate_attrs`
-               (open finding KF-C17-key-name-capture, `key_capture_witness`).
-* `cfgOK m` := the parameter names of the method's recipe (`self`, control parameters, key attribute)
-             are distinct, none is `implementation`/`validate_attrs`/`kwargs`; the nested class has
+             ∧ `noCapture b`: no parameter is called `_spec_classes_implementation` /
+               `_spec_classes_validate_attrs`, the (private) names under which the generated text
+               looks up its two globals since /repo 0ac9e19; no attribute of a well-formed class
+               is private, so this costs generated methods nothing (`Legacy.key_capture_witness`
+               is the behaviour before the repair).
+* `cfgOK m` := well-formedness of the configuration: the parameter names of the method's recipe
+             (`self`, control parameters, key attribute) are distinct — i.e. the key attribute is not
+             called `self` — none is `kwargs` (either makes `.build()` fail loudly with ValueError) and
+             none is one of the two private global names; the nested class has
              distinct attribute names and its overflow attribute is not one of those parameters.
 -/
 
@@ -78,7 +83,7 @@ theorem buildable_good {b : Builder} {impl : Sig} (h : buildResult b impl = "ok"
 /-- The wrapper raises nothing but `TypeError` on its own. -/
 theorem wrapper_error_is_typeError {b : Builder} {c : Call α} {e : Err}
     (h : wrapper b c = .error e) : e = .typeError := by
-  unfold wrapper at h
+  unfold wrapper wrapperWith at h
   split at h
   · injection h with h; exact h.symm
   · split at h
@@ -698,13 +703,7 @@ example : ∃ b, builderFor exCfg = .ok b ∧
     wrapper b (⟨["self"], [("hidden", "1")]⟩ : Call String) = .error .typeError := by
   refine ⟨_, rfl, ⟨_, rfl⟩, rfl⟩
 
-/-- Open finding KF-C17-key-name-capture: a key attribute called
-`implementation` becomes a compiled parameter that shadows the global of the
-generated text: the advertised signature accepts `C(implementation=v)`, the
-constructor raises `TypeError`. `noCapture` excludes exactly this. -/
-def KeyNameCaptureFree : Prop :=
-  ∀ (m : MethodCfg) (b : Builder) (c : Call String), builderFor m = .ok b →
-    (∃ bd, pyBind (advertised b) c = .ok bd) → ∃ f, wrapper b c = .ok f
+/-! ### the key attribute called `implementation` (repaired in /repo 0ac9e19) -/
 
 def captureCfg : MethodCfg :=
   ⟨.init, some ("implementation", false), some ⟨[⟨"implementation", true⟩, ⟨"x", true⟩], none⟩⟩
@@ -713,15 +712,25 @@ def captureBuilder : Builder :=
   ⟨[⟨"self", .posOrKw, false⟩, ⟨"implementation", .posOrKw, false⟩, kwargsParam],
    [⟨"x", .kwOnly, true⟩], true⟩
 
-theorem key_capture_witness : ¬ KeyNameCaptureFree := by
-  intro h
-  have hb : builderFor captureCfg = .ok captureBuilder := rfl
-  obtain ⟨f, hf⟩ := h captureCfg captureBuilder
-    (⟨["self"], [("implementation", "v")]⟩ : Call String) hb ⟨_, rfl⟩
-  have herr : wrapper captureBuilder (⟨["self"], [("implementation", "v")]⟩ : Call String)
-      = .error .typeError := rfl
-  rw [herr] at hf
-  cases hf
+/-- at HEAD this configuration is an ordinary instance of the theorems … -/
+example : cfgOK captureCfg = true := by decide
+example : builderFor captureCfg = .ok captureBuilder := rfl
+/-- … and `C(implementation="v")` reaches the implementation with the value given -/
+example : wrapper captureBuilder (⟨["self"], [("implementation", "v")]⟩ : Call String) =
+    .ok ⟨[], [("self", .val "self"), ("implementation", .val "v")]⟩ := rfl
+
+namespace Legacy
+/-- The text generated BEFORE 0ac9e19 looked the implementation up under the
+plain names `implementation` / `validate_attrs`: the key parameter shadowed it —
+the advertised signature accepted `C(implementation="v")`, the constructor raised
+`TypeError` (former finding KF-C17-key-name-capture; the failing input is now a
+corpus case of the correspondence run). -/
+theorem key_capture_witness :
+    (∃ bd, pyBind (advertised captureBuilder) (⟨["self"], [("implementation", "v")]⟩ : Call String) = .ok bd) ∧
+    wrapperWith "implementation" "validate_attrs" captureBuilder
+      (⟨["self"], [("implementation", "v")]⟩ : Call String) = .error .typeError :=
+  ⟨⟨_, rfl⟩, rfl⟩
+end Legacy
 
 /-- a virtual keyword-only argument WITHOUT default (possible through `with_arg`
 directly, never through `with_spec_attrs_for`) is advertised as required but not
